@@ -273,8 +273,10 @@ let () =
            else if tid = "c" then "illtyped"
            else let tidn = n_of_int (int_of_string tid) in
            if not (wt u (TPtr tidn) v) then "illtyped"
-           else match spec schema (abs u v) with
-             | Some b -> "ok:" ^ hex_of_bytes b
+           else
+             let sv = abs u v in
+             match spec schema sv with
+             | Some b -> (if conforms schema (sdepth sv) TTObject sv then "ok:" else "ok-nonconforming:") ^ hex_of_bytes b
              | None -> "none" in
          Printf.printf "%s\t%s\t%s\n" id r sp
        with Unsupported -> Printf.printf "%s\tunsupported\n" id)
